@@ -45,7 +45,7 @@ def cases(tier, seed):
         if kind != "pd":
             continue
         depth1 = "(" not in name
-        for b in ([], [2]):
+        for b in ([], [2]) + (([1],) if (tier == "thorough" and "(" not in name) else ()):  # a singleton batch dimension (thorough)
             for cfg in lattice(tier):
                 if not depth1 and tier == "quick" and cfg not in ({}, {"max_cholesky_size": 0}):
                     continue
